@@ -221,6 +221,69 @@ example : -1 ≤ ssoCos 0 0 1 1 1 ∧ ssoCos 0 0 1 1 1 ≤ 1 := by
   have : ssoCos 0 0 1 1 1 = 0 := by simp [ssoCos, Real.zero_rpow]
   rw [this]; norm_num
 
+/-! ## Modes starting from an inclination -/
+
+/-- the quantity `sso(e=, i=)` raises to the power 2/7 (it IS a^(7/2) of the orbit returned) -/
+noncomputable def ssoBaseA (e i mu re j2 : ℝ) : ℝ :=
+  -3 / 2 * (Real.sqrt mu * re ^ 2 * j2) * Real.cos i / (sunRate * (1 - e ^ 2) ^ 2)
+
+theorem ssoA_eq (e i mu re j2 : ℝ) : ssoA e i mu re j2 = Real.rpow (ssoBaseA e i mu re j2) (2 / 7) := by
+  simp [ssoA, ssoBaseA, sunRate]
+
+/-- **sso i → a → i**: for an inclination in [0, π] on the side where a sun-synchronous orbit exists (the base of the
+power is positive: retrograde for J2 > 0), the semi-major axis `sso(e=, i=)` returns gives back `i` in the mode
+(a, e) ↦ i. -/
+theorem sso_self_inverse_i_via_a (e i mu re j2 : ℝ) (he : e ^ 2 ≠ 1) (hmu : 0 < mu) (hre : re ≠ 0) (hj : j2 ≠ 0)
+    (hi0 : 0 ≤ i) (hi1 : i ≤ Real.pi) (hpos : 0 < ssoBaseA e i mu re j2) :
+    ssoI (ssoA e i mu re j2) e mu re j2 = i := by
+  have hpi := Real.pi_pos
+  have hs : Real.sqrt mu ≠ 0 := (Real.sqrt_pos.mpr hmu).ne'
+  have he' : (1 - e ^ 2) ≠ 0 := fun h => he (by linarith)
+  have hpow : Real.rpow (ssoA e i mu re j2) (7 / 2) = ssoBaseA e i mu re j2 := by
+    rw [ssoA_eq, Real.rpow_eq_pow, Real.rpow_eq_pow, ← Real.rpow_mul hpos.le]
+    norm_num
+  have hcos : ssoCos (ssoA e i mu re j2) e mu re j2 = Real.cos i := by
+    unfold ssoCos
+    rw [hpow]
+    unfold ssoBaseA sunRate
+    field_simp
+  rw [ssoI_eq, hcos, Real.arccos_cos hi0 hi1]
+
+/-- the quantity whose square root `sso(a=, i=)` subtracts from one (it IS (1 - e²)² of the orbit returned) -/
+noncomputable def ssoBaseE (a i mu re j2 : ℝ) : ℝ :=
+  -3 / 2 * (Real.sqrt mu * re ^ 2 * j2) * Real.cos i / (sunRate * Real.rpow a (7 / 2))
+
+theorem ssoE_eq (a i mu re j2 : ℝ) : ssoE a i mu re j2 = Real.sqrt (1 - Real.sqrt (ssoBaseE a i mu re j2)) := by
+  simp [ssoE, ssoBaseE, sunRate]
+
+/-- **sso i → e → i**: where an eccentricity exists (0 ≤ base ≤ 1), the eccentricity `sso(a=, i=)` returns gives back `i`. -/
+theorem sso_self_inverse_i_via_e (a i mu re j2 : ℝ) (ha : 0 < a) (hmu : 0 < mu) (hre : re ≠ 0) (hj : j2 ≠ 0)
+    (hi0 : 0 ≤ i) (hi1 : i ≤ Real.pi) (hb0 : 0 ≤ ssoBaseE a i mu re j2) (hb1 : ssoBaseE a i mu re j2 ≤ 1) :
+    ssoI a (ssoE a i mu re j2) mu re j2 = i := by
+  have hpi := Real.pi_pos
+  have hs : Real.sqrt mu ≠ 0 := (Real.sqrt_pos.mpr hmu).ne'
+  have hp : Real.rpow a (7 / 2) ≠ 0 := (Real.rpow_pos_of_pos ha _).ne'
+  have hsq1 : Real.sqrt (ssoBaseE a i mu re j2) ≤ 1 := by
+    calc Real.sqrt (ssoBaseE a i mu re j2) ≤ Real.sqrt 1 := Real.sqrt_le_sqrt hb1
+      _ = 1 := Real.sqrt_one
+  have h1 : (1 - (ssoE a i mu re j2) ^ 2) ^ 2 = ssoBaseE a i mu re j2 := by
+    rw [ssoE_eq, Real.sq_sqrt (by linarith)]
+    have : 1 - (1 - Real.sqrt (ssoBaseE a i mu re j2)) = Real.sqrt (ssoBaseE a i mu re j2) := by ring
+    rw [this, Real.sq_sqrt hb0]
+  have hcos : ssoCos a (ssoE a i mu re j2) mu re j2 = Real.cos i := by
+    unfold ssoCos
+    rw [h1]
+    unfold ssoBaseE sunRate
+    field_simp
+  rw [ssoI_eq, hcos, Real.arccos_cos hi0 hi1]
+
+/-- the hypotheses are satisfiable: i = π (cos i = -1) with unit constants gives a positive base -/
+example : 0 < ssoBaseA 0 Real.pi 1 1 1 := by
+  have hpi := Real.pi_pos
+  unfold ssoBaseA sunRate
+  simp only [Real.cos_pi, Real.sqrt_one]
+  positivity
+
 /-! ## The J2 propagator object: histories on ONE orbit object
 
 `sso_node_rate` is about the formulas; what a user observes is `orb.propagate(…)` on an `Orbit` object that carries
